@@ -150,39 +150,6 @@ func cmdCheck(args []string) int {
 		fmt.Fprintln(os.Stderr, "unknown property", *prop)
 		return 3
 	}
-	repoDir := *repo
-	pkgs := pc.Pkgs
-	var instInfo *InstInfo
-	if pc.Inst {
-		ii, err := prepareInst(*repo, *verif, *tier)
-		if err != nil {
-			fmt.Fprintln(os.Stderr, "BROKEN-CHECK: instance corpus:", err)
-			return 3
-		}
-		defer ii.cleanup()
-		instInfo = ii
-		repoDir = ii.dir
-		pkgs = ii.pkgs
-	}
-	p, err := loadProgram(repoDir, pkgs)
-	if err != nil {
-		// A tree that does not type-check cannot be verified: report as broken build.
-		fmt.Fprintln(os.Stderr, "BROKEN-CHECK: cannot load packages:", err)
-		return 3
-	}
-	p.repo = *repo
-	cs, err := p.collectContracts(*verif)
-	if err != nil {
-		fmt.Fprintln(os.Stderr, "BROKEN-CHECK: contracts:", err)
-		return 3
-	}
-	if instInfo != nil {
-		if err := instInfo.addContracts(p, cs, *prop); err != nil {
-			fmt.Fprintln(os.Stderr, "BROKEN-CHECK: instance contracts:", err)
-			return 3
-		}
-	}
-	loadS := time.Since(t0).Seconds()
 	timeout := 60 * time.Second
 	confirm := false
 	if *tier == "thorough" {
@@ -216,138 +183,189 @@ func cmdCheck(args []string) int {
 	var samples []interface{}
 	nFns := 0
 	totalInstr := 0
-	var selected []*Contract
 	var outside []string
-	for _, ct := range cs.Order {
-		if ct.External || ct.Trusted || ct.Opaque || ct.onlyInline() {
-			continue
+	type unitSpec struct {
+		inst bool
+		pkgs []string
+	}
+	var units []unitSpec
+	if len(pc.Pkgs) > 0 {
+		units = append(units, unitSpec{false, pc.Pkgs})
+	}
+	if pc.Inst {
+		units = append(units, unitSpec{true, nil})
+	}
+	var cs *ContractSet
+	var instInfo *InstInfo
+	loadS := 0.0
+	for _, unit := range units {
+		tu := time.Now()
+		repoDir := *repo
+		pkgs := unit.pkgs
+		var unitInst *InstInfo
+		if unit.inst {
+			ii, err := prepareInst(*repo, *verif, *tier, *prop)
+			if err != nil {
+				fmt.Fprintln(os.Stderr, "BROKEN-CHECK: instance corpus:", err)
+				return 3
+			}
+			defer ii.cleanup()
+			unitInst = ii
+			instInfo = ii
+			repoDir = ii.dir
+			pkgs = ii.pkgs
 		}
-		serves := hasProp(ct.Props, *prop)
-		for _, cl := range append(append([]*Clause{}, ct.Ensures...), ct.Requires...) {
-			if hasProp(cl.Props, *prop) && len(cl.Props) > 0 {
-				serves = true
+		p, err := loadProgram(repoDir, pkgs)
+		if err != nil {
+			// A tree that does not type-check cannot be verified: report as broken build.
+			fmt.Fprintln(os.Stderr, "BROKEN-CHECK: cannot load packages:", err)
+			return 3
+		}
+		p.repo = *repo
+		cs, err = p.collectContracts(*verif)
+		if err != nil {
+			fmt.Fprintln(os.Stderr, "BROKEN-CHECK: contracts:", err)
+			return 3
+		}
+		if unitInst != nil {
+			if err := unitInst.addContracts(p, cs, *prop); err != nil {
+				fmt.Fprintln(os.Stderr, "BROKEN-CHECK: instance contracts:", err)
+				return 3
 			}
 		}
-		if !serves {
-			continue
+		loadS += time.Since(tu).Seconds()
+		var selected []*Contract
+		for _, ct := range cs.Order {
+			if ct.External || ct.Trusted || ct.Opaque || ct.onlyInline() {
+				continue
+			}
+			serves := hasProp(ct.Props, *prop)
+			for _, cl := range append(append([]*Clause{}, ct.Ensures...), ct.Requires...) {
+				if hasProp(cl.Props, *prop) && len(cl.Props) > 0 {
+					serves = true
+				}
+			}
+			if !serves {
+				continue
+			}
+			selected = append(selected, ct)
 		}
-		selected = append(selected, ct)
-	}
-	type verified struct {
-		fr   *FnResult
-		outs []*goalOutcome
-	}
-	results := make([]*verified, len(selected))
-	{
-		var wg sync.WaitGroup
-		fsem := make(chan struct{}, 6)
+		type verified struct {
+			fr   *FnResult
+			outs []*goalOutcome
+		}
+		results := make([]*verified, len(selected))
+		{
+			var wg sync.WaitGroup
+			fsem := make(chan struct{}, 6)
+			for i, ct := range selected {
+				i, ct := i, ct
+				wg.Add(1)
+				go func() {
+					defer wg.Done()
+					fsem <- struct{}{}
+					defer func() { <-fsem }()
+					t1 := time.Now()
+					fr := p.verifyFunctionWith(cs, ct, activeFindings)
+					v := &verified{fr: fr}
+					capped := len(fr.Unsupported) > 0 && strings.HasPrefix(fr.Unsupported[0], "path cap exceeded")
+					if fr.Attached && !capped {
+						v.outs = discharge(dir, fr, timeout, confirm, sem, *keep != "")
+					}
+					if os.Getenv("GVC_DEBUG") != "" {
+						fmt.Fprintf(os.Stderr, "%6.1fs %5d goals %4d paths %s\n", time.Since(t1).Seconds(), len(fr.Goals), fr.Paths, shortFn(ct.Func))
+					}
+					results[i] = v
+				}()
+			}
+			wg.Wait()
+		}
 		for i, ct := range selected {
-			i, ct := i, ct
-			wg.Add(1)
-			go func() {
-				defer wg.Done()
-				fsem <- struct{}{}
-				defer func() { <-fsem }()
-				t1 := time.Now()
-				fr := p.verifyFunctionWith(cs, ct, activeFindings)
-				v := &verified{fr: fr}
-				capped := len(fr.Unsupported) > 0 && strings.HasPrefix(fr.Unsupported[0], "path cap exceeded")
-				if fr.Attached && !capped {
-					v.outs = discharge(dir, fr, timeout, confirm, sem, *keep != "")
-				}
-				if os.Getenv("GVC_DEBUG") != "" {
-					fmt.Fprintf(os.Stderr, "%6.1fs %5d goals %4d paths %s\n", time.Since(t1).Seconds(), len(fr.Goals), fr.Paths, shortFn(ct.Func))
-				}
-				results[i] = v
-			}()
-		}
-		wg.Wait()
-	}
-	for i, ct := range selected {
-		nFns++
-		fr := results[i].fr
-		totalInstr += fr.Instrs
-		fnsUnder = append(fnsUnder, fmt.Sprintf("%s (%d SSA instrs, %d paths)", shortFn(ct.Func), fr.Instrs, fr.Paths))
-		for _, n := range fr.Inlined {
-			inlined = append(inlined, n)
-		}
-		for _, n := range fr.Uncontracted {
-			uncontracted = append(uncontracted, n)
-		}
-		notes = append(notes, fr.Notes...)
-		for _, n := range fr.Used {
-			if seenUsed[n] {
-				continue
+			nFns++
+			fr := results[i].fr
+			totalInstr += fr.Instrs
+			fnsUnder = append(fnsUnder, fmt.Sprintf("%s (%d SSA instrs, %d paths)", shortFn(ct.Func), fr.Instrs, fr.Paths))
+			for _, n := range fr.Inlined {
+				inlined = append(inlined, n)
 			}
-			seenUsed[n] = true
-			if c2 := cs.ByFunc[n]; c2 != nil {
-				if c2.External {
-					usedExt = append(usedExt, "assumed contract: "+shortFn(n))
-				} else if c2.Trusted {
-					trustedUsed = append(trustedUsed, "trusted contract on /repo function: "+shortFn(n))
+			for _, n := range fr.Uncontracted {
+				uncontracted = append(uncontracted, n)
+			}
+			notes = append(notes, fr.Notes...)
+			for _, n := range fr.Used {
+				if seenUsed[n] {
+					continue
+				}
+				seenUsed[n] = true
+				if c2 := cs.ByFunc[n]; c2 != nil {
+					if c2.External {
+						usedExt = append(usedExt, "assumed contract: "+shortFn(n))
+					} else if c2.Trusted {
+						trustedUsed = append(trustedUsed, "trusted contract on /repo function: "+shortFn(n))
+					}
 				}
 			}
-		}
-		if ct.File == "synthesised" && len(fr.Unsupported) == 1 && strings.HasPrefix(fr.Unsupported[0], "path cap exceeded") {
-			// instance outside the verifier's reach: listed, never counted as pass or violation
-			outside = append(outside, shortFn(ct.Func)+": "+fr.Unsupported[0])
-			nFns--
-			continue
-		}
-		if !fr.Attached || len(fr.Unsupported) > 0 || len(fr.SpecErrs) > 0 {
-			a := &aggGoal{Name: shortFn(ct.Func) + "#attached", Kind: "attached", Fn: ct.Func, Status: "detached", Props: ct.Props}
-			why := "function or loop named by the contract not found in the working tree"
-			if len(fr.Unsupported) > 0 {
-				why = "function left the supported subset: " + strings.Join(fr.Unsupported, "; ")
-			}
-			if len(fr.SpecErrs) > 0 {
-				why = "contract no longer resolves against the code: " + strings.Join(fr.SpecErrs, "; ")
-			}
-			a.Text = why
-			violations = append(violations, a)
-			totalObl++
-			reports = append(reports, obligationReport{Name: a.Name, Kind: "attached", Fn: shortFn(ct.Func), Status: "detached", Goal: why})
-			if !fr.Attached {
+			if ct.File == "synthesised" && len(fr.Unsupported) == 1 && strings.HasPrefix(fr.Unsupported[0], "path cap exceeded") {
+				// instance outside the verifier's reach: listed, never counted as pass or violation
+				outside = append(outside, shortFn(ct.Func)+": "+fr.Unsupported[0])
+				nFns--
 				continue
 			}
-		} else {
-			totalObl++
-			totalOK++
-			reports = append(reports, obligationReport{Name: shortFn(ct.Func) + "#attached", Kind: "attached", Fn: shortFn(ct.Func), Status: "discharged", Solver: "structural"})
-		}
-		outs := results[i].outs
-		agg := aggregate(outs)
-		for _, a := range agg {
-			if !hasProp(a.Props, *prop) {
-				continue
+			if !fr.Attached || len(fr.Unsupported) > 0 || len(fr.SpecErrs) > 0 {
+				a := &aggGoal{Name: shortFn(ct.Func) + "#attached", Kind: "attached", Fn: ct.Func, Status: "detached", Props: ct.Props}
+				why := "function or loop named by the contract not found in the working tree"
+				if len(fr.Unsupported) > 0 {
+					why = "function left the supported subset: " + strings.Join(fr.Unsupported, "; ")
+				}
+				if len(fr.SpecErrs) > 0 {
+					why = "contract no longer resolves against the code: " + strings.Join(fr.SpecErrs, "; ")
+				}
+				a.Text = why
+				violations = append(violations, a)
+				totalObl++
+				reports = append(reports, obligationReport{Name: a.Name, Kind: "attached", Fn: shortFn(ct.Func), Status: "detached", Goal: why})
+				if !fr.Attached {
+					continue
+				}
+			} else {
+				totalObl++
+				totalOK++
+				reports = append(reports, obligationReport{Name: shortFn(ct.Func) + "#attached", Kind: "attached", Fn: shortFn(ct.Func), Status: "discharged", Solver: "structural"})
 			}
-			if a.Kind == "cover" {
-				if strings.HasSuffix(a.Name, "#known") {
-					if a.OK {
-						knownConfirmed[strings.TrimSuffix(a.Name, "#known")] = true
+			outs := results[i].outs
+			agg := aggregate(outs)
+			for _, a := range agg {
+				if !hasProp(a.Props, *prop) {
+					continue
+				}
+				if a.Kind == "cover" {
+					if strings.HasSuffix(a.Name, "#known") {
+						if a.OK {
+							knownConfirmed[strings.TrimSuffix(a.Name, "#known")] = true
+						}
+						continue
+					}
+					if !a.OK {
+						broken = append(broken, fmt.Sprintf("vacuity guard %s came back unsat (%s)", a.Name, a.Text))
 					}
 					continue
 				}
-				if !a.OK {
-					broken = append(broken, fmt.Sprintf("vacuity guard %s came back unsat (%s)", a.Name, a.Text))
+				totalObl++
+				solverTime += a.Seconds
+				r := obligationReport{Name: a.Name, Kind: a.Kind, Fn: shortFn(a.Fn), Status: a.Status, Solver: a.Solver, Second: a.Second, Seconds: round3(a.Seconds), Paths: a.Instances, Goal: a.Text, MaxS: round3(a.MaxSecs)}
+				reports = append(reports, r)
+				if a.OK {
+					totalOK++
+					solverCount[a.Solver]++
+					if strings.HasPrefix(a.Second, "DISAGREE") {
+						broken = append(broken, fmt.Sprintf("solvers disagree on %s: %s", a.Name, a.Second))
+					}
+					if len(samples) < 6 && a.Kind != "nopanic" && a.Solver != "syntactic" {
+						samples = append(samples, map[string]interface{}{"obligation": a.Name, "goal": a.Text, "solver": a.Solver, "solver_s": round3(a.Seconds), "paths": a.Instances})
+					}
+				} else {
+					violations = append(violations, a)
 				}
-				continue
-			}
-			totalObl++
-			solverTime += a.Seconds
-			r := obligationReport{Name: a.Name, Kind: a.Kind, Fn: shortFn(a.Fn), Status: a.Status, Solver: a.Solver, Second: a.Second, Seconds: round3(a.Seconds), Paths: a.Instances, Goal: a.Text, MaxS: round3(a.MaxSecs)}
-			reports = append(reports, r)
-			if a.OK {
-				totalOK++
-				solverCount[a.Solver]++
-				if strings.HasPrefix(a.Second, "DISAGREE") {
-					broken = append(broken, fmt.Sprintf("solvers disagree on %s: %s", a.Name, a.Second))
-				}
-				if len(samples) < 6 && a.Kind != "nopanic" && a.Solver != "syntactic" {
-					samples = append(samples, map[string]interface{}{"obligation": a.Name, "goal": a.Text, "solver": a.Solver, "solver_s": round3(a.Seconds), "paths": a.Instances})
-				}
-			} else {
-				violations = append(violations, a)
 			}
 		}
 	}
@@ -400,7 +418,15 @@ func cmdCheck(args []string) int {
 	os.MkdirAll(filepath.Join(*verif, "replays", *prop), 0o755)
 	for _, f := range findings {
 		if f.Kind == "finding" && f.Property == *prop {
-			if knownConfirmed[f.Obligation] {
+			confirmed := knownConfirmed[f.Obligation]
+			if strings.Contains(f.Obligation, "*") {
+				for k := range knownConfirmed {
+					if globMatch(f.Obligation, k) {
+						confirmed = true
+					}
+				}
+			}
+			if confirmed {
 				fmt.Printf("KNOWN-FINDING: property=%s obligation=%s input={%s} %s\n", *prop, f.Obligation, f.Input, f.Text)
 			} else {
 				fmt.Printf("note: recorded finding on %s no longer reproduces (region {%s})\n", f.Obligation, f.Region)
